@@ -49,20 +49,33 @@ EXPLANATION = (
     "on the whole result, with a target set that protects the true targets - spin-labelled ones and provided targets "
     "that occur twice included; func.evaluate_deltas itself is evaluated from its source, inside simplify_unitary and directly "
     "on model products against the contract written down here: killable index substituted unless protected, a delta whose two "
-    "indices are contracted and sit on no other object is kept because its double sum is the dimension of the space). "
-    "Thorough tier: "
+    "indices are contracted and sit on no other object is kept because its double sum is the dimension of the space); "
+    "the same target indices hold for every delta of a product, however the earlier ones were evaluated: evaluate_deltas is "
+    "evaluated on ~900 generated products of two and three deltas over four indices (disjoint pairs, chains, stars, triangles; "
+    "remainder objects on none, some or all indices; every subset of the indices as explicit targets, the empty set and the sum "
+    "convention; sums of products; an index with a spin label next to indices without), each result compared with the value "
+    "of the input for every assignment of the targets (contracted indices summed) and with the form of the contract (killable "
+    "index removed unless target, else preferred index removed if no target and the information is equal, a delta between two "
+    "targets kept), so that every restart on the remaining deltas and every term of a sum is seen to carry the targets it was "
+    "given; simplify_unitary with delta evaluation on terms that generate two and three deltas with provided targets. "
+    "Thorough tier: the generated products of deltas for all pairs and triples of deltas over four indices (~9700); "
     "the same three comparisons on every generated term with 2-4 unitary factors over three indices, an optional "
     "remainder object or delta and optional provided targets (also the empty set), each also with delta evaluation requested "
     "(value only).")
 ASSUMPTIONS = [
-    "bounded: the scenarios listed in the module (thorough: all terms of 2-4 unitary factors over 3 indices with an optional "
+    "bounded: the scenarios listed in the module and the generated products of deltas (thorough: all terms of 2-4 unitary factors over 3 indices with an optional "
     "remainder object of <= 2 indices or a delta and <= 1 provided target or the empty provided set); one index space, uniform "
-    "spin per scenario",
+    "spin per simplify_unitary scenario",
     "the containers are modelled: Expr/Term/Obj are records (objects, exponent, idx, base_and_exponent, assumptions), products "
     "merge equal bases like sympy, KroneckerDelta(p, p) = 1 and delta**n = delta; sympy's isinstance(Add/Mul/Pow), .args, "
     ".func, .atoms(Index), .has, .subs(index, index), Mul/Add.make_args are modelled on these products; get_symbols(<str>) yields spin-less "
     "indices; func.evaluate_deltas and the KroneckerDelta properties it reads are evaluated from their source",
     "orthogonality is represented by one fixed rational rotation matrix (non-symmetric), dimension 2",
+    "evaluate_deltas: products of at most three deltas over four indices of one space (quick: the pairs and seven triples "
+    "listed in evd_family, thorough: all pairs and triples), one remainder out of a fixed list; a spin label acts only as "
+    "information (indices with and without label range over the same two values in the value comparison, only '' and 'a' mixed); "
+    "a bare delta is no product and is returned as it is (documented behaviour); the deltas of a model product are visited in "
+    "the canonical order of the model (all index namings are generated, so every delta is the first one in some product)",
     "excluded from the decided domain: terms without provided targets whose Einstein targets change because delta_pp = 1 "
     "removes two occurrences (U_ki^2 X_i -> X_i is the documented upstream behaviour)",
 ]
@@ -917,7 +930,7 @@ SCENARIOS = [
     Scenario("evd-two-einstein", "R20c", "delta evaluation requested, two deltas, targets by sum convention",
              "U:mi U:mj X:i U:nk U:nl Y:kl", ed=True),
     Scenario("evd-two-terms", "R20c", "delta evaluation requested, two terms with two deltas each, provided targets",
-             ["U:mi U:mj X:i U:nk U:nl Y:kl", "2 U:im U:jm X:i U:kn U:ln Y:lk"], target="jkl", ed=True),
+             ["U:mi U:mj X:i U:nk U:nl Y:kl", "2 U:mi U:mj X:i U:nk U:nl Z:lk"], target="jkl", ed=True),
 ]
 
 
